@@ -317,7 +317,7 @@ def cmd_check(check, tier, args):
     for k, vs in sorted(by_class.items()):
         for v in vs[:per_class]:
             todo.append((k, v, os.path.join(rdir, check, "%d.json" % v["seed"])))
-    todo = todo[:48]
+    todo = todo[:int(os.environ.get("KSIM_MAX_SHRINK", "48") or 48)]
     # shrink in parallel (each in a fresh interpreter with the hash seed of the failing run), then replay each file
     shr = parallel_jobs([({"mode": "shrink", "case": v["case"], "klass": list(k[1:4]), "path": path, "check": check,
                            "hashseed": v["hashseed"], "max_runs": 400}, v["hashseed"]) for k, v, path in todo], workers)
